@@ -117,9 +117,12 @@ check("C15", "model_checking",
       "every item, parallel_join with two failing tasks (the error of the first one in input order is returned; executions "
       "that end in the documented cancellation panic of abandoned tasks are counted as tolerated and the exploration continues), "
       "every schedule within the preemption bound. Window occupancy is checked from both sides at every Pending return "
-      "of the single-threaded stream: at least min(w, outstanding) and never more than w tasks in flight.",
+      "of the single-threaded stream: at least min(w, outstanding) and never more than w tasks in flight. Boundary windows: "
+      "for every w in {1,2,3, 2^k-1, 2^k, 2^k+1 (k=5..17), 1000, 10^4, 5*10^4, 10^5} one execution each of seq_join and "
+      "seq_try_join_all with n = w+3 tasks where task 0 waits for task w-1: exactly w tasks taken and polled at the first "
+      "Pending, task 0 released by completing task w-1 alone, all results in order.",
       [{"name": "seqjoin", "config": "A", "test": "verif::c15::run",
-        "require": {"any": {"max_distinct_completion_orders": 20, "window_checks": 100}}},
+        "require": {"any": {"max_distinct_completion_orders": 20, "window_checks": 100, "large_window_runs": 80, "max_largest_window": 131073}}},
        {"name": "multi-thread", "config": "B2", "test": "verif::c15s::run", "workers": {"quick": 16, "thorough": 16},
         "timeout": {"quick": 900, "thorough": 7200},
         "require": {"any": {"mt_schedules": 100000, "max_distinct_completion_orders_mt": 6}}}],
@@ -135,7 +138,8 @@ check("C15", "model_checking",
       text="All completion orders the window permits and all single in-window dependencies are executed against the real "
            "SequentialFutures; order of results, exactly-once, window occupancy at every Pending return, polling of every "
            "in-flight task and termination after the first error are checked on every execution.",
-      note="Bounds: n <= 6 (7), w <= 4 (5), one dependency edge, source Pending deviations <= 2; multi-threaded: n <= 4 (5), "
+      note="Bounds: n <= 6 (9), w <= 8, one dependency edge, source Pending deviations <= 2; 46 boundary windows up to 2^17+1 "
+           "with one fixed completion order each (single-threaded implementation only); multi-threaded: n <= 4 (5), "
            "preemption bound 3 (n <= 2), 2 (n = 3), 1 (n = 4).")
 
 check("C16", "model_checking",
